@@ -122,6 +122,17 @@ Theorem C12_stale_miniblock_reads_nothing : forall isz vpm mpb reader s ws i md 
 Proof. exact stale_miniblock_reads_nothing. Qed.
 Print Assumptions C12_stale_miniblock_reads_nothing.
 
+(* the OUTPUT side of the same routine: parking a whole miniblock of deltas in the output (o.write_int / write_long are
+   checked) never writes outside a buffer of whole items, whatever its size and however many deltas there are: each item is
+   stored or dropped, the cursor stays aligned and inside.  (What is NOT checked is the input side - NumpyIO.read_byte - and
+   the unconditional `o.loc -= 4`: the open findings.) *)
+Theorem C12_delta_scratch_writes_inside : forall isz vs o,
+  0 < isz -> o_loc o mod isz = 0 -> o_nbytes o mod isz = 0 -> o_loc o <= o_nbytes o -> o_nbytes o < 2 ^ 32 ->
+  exists o', o_write_all isz o vs = Ok o' /\ o_nbytes o' = o_nbytes o /\ o_loc o' mod isz = 0 /\ o_loc o' <= o_nbytes o' /\
+             length (o_items o') = length (o_items o).
+Proof. exact (fun isz vs o => o_write_all_inside isz vs o). Qed.
+Print Assumptions C12_delta_scratch_writes_inside.
+
 Example C12_nonvacuous :
   c_read_bitpacked [136; 198; 250] 3 3 12 4 = Ok {| d_vals := [0; 1; 2]; d_used := 3; d_written := 12 |} /\
   c_read_rle [7] 10 3 8 4 = Ok {| d_vals := [7; 7]; d_used := 1; d_written := 8 |}.
